@@ -5,7 +5,7 @@ CFG = {
     "functional": ["C15.chain", "C15.args"],
     "required_classes": ["chain", "tmpl-valid", "tmpl-namer-call", "tmpl-parse-error", "tmpl-exec-error", "op-append", "op-merge", "op-dup",
                          "writer-error", "namers-0", "namers-3", "delim-$", "delim-{{", "delim-@", "delim-<<", "first-error-kept",
-                         "args-with", "args-withargs", "args-clash", "args-unchanged", "tmpl-defines-template", "tmpl-uses-undefined-template", "args-empty-receiver", "args-mutation-independent", "one-delimiter-empty", "tmpl-missing-key"],
+                         "args-with", "args-withargs", "args-clash", "args-unchanged", "tmpl-defines-template", "tmpl-uses-undefined-template", "args-empty-receiver", "args-mutation-independent", "one-delimiter-empty", "tmpl-missing-key", "tmpl-nil-data"],
     "rule": "chains of 1-8 (thorough: 1-20) Do/Append/Merge/Dup calls (v1: Do) over 17 templates (valid, a reference to a key the data map lacks, namer pipelines, range/if, parse errors incl. an unknown function, execution errors after partial output), 4 delimiter pairs, 0-3 naming systems, 1-3 destination writers that fail at a random write index with partial writes; for every Do the oracle text/template is run directly with the same delimiters, functions (one per naming system) and data, its Write calls recorded; after every call the bytes each writer received and every snippet writer's Error() are dumped; Args.With/WithArgs on random maps with clashes; non-trivial = input longer than 12 characters",
     "exhaustive": [],
     "modelled": "SnippetWriter.Do/Error/Dup/Append/Merge, NewSnippetWriter's function map, Args.With/WithArgs (generator/snippet_writer.go, v2/generator/snippet_writer.go). text/template is an input of the model: parse failure, the sequence of Write calls, execution failure, all recorded from the real engine on every run.",
